@@ -51,6 +51,8 @@ class Lock:
 
 def build_repo():
     """(Re)build libmuscle.a from /repo's current working tree (hooks + ASan/UBSan), incrementally."""
+    if os.environ.get('VERIF_SKIP_REPO_BUILD') and os.path.exists(LIB):
+        return True, ''   # development only (several working copies sharing one library build)
     with Lock('repo'):
         if not os.path.exists(os.path.join(REPO_BUILD, 'build.ninja')):
             os.makedirs(REPO_BUILD, exist_ok=True)
